@@ -247,6 +247,18 @@ def _flow(afi: int) -> str:
     return build.update_body(b'', attrs + build.attribute(0x80, 14, bytes([0, afi, 133, 0, 0]) + bytes.fromhex('05038106' + '0b812e')), b'').hex()
 
 
+def _labelled(session: int, safi: int, label: int) -> list:
+    from vlib.c19_decode import SESSIONS as _S
+    from vlib.refwire import build
+
+    rd = bytes.fromhex('0000fde800000001') if safi == 128 else b''
+    hop = (bytes(8) if safi == 128 else b'') + bytes([10, 0, 0, 9])
+    nlri = bytes([24 + 8 * len(rd) + 24]) + ((label << 4) | 1).to_bytes(3, 'big') + rd + bytes([10, 1, 1])
+    attrs = build.attribute(0x40, 1, b'\x00') + build.attribute(0x40, 2, build.aspath([(2, [_S[session]['peer_as']])], _S[session]['asn4'])) + build.attribute(0x40, 5, b'\x00\x00\x00\x64')
+    mp = build.attribute(0x80, 14, bytes([0, 1, safi, len(hop)]) + hop + b'\x00' + nlri)
+    return [session, UPDATE, build.update_body(b'', attrs + mp, b'').hex()]
+
+
 def fixed_cases() -> list:
     """the smallest dual-reading pair in both orders, the same with something in between, and the two route-refresh codes"""
     from vlib.refwire import build
@@ -277,6 +289,9 @@ def fixed_cases() -> list:
         # one attribute block, first with withdrawn routes beside the announce, then without, and the other way round
         {'messages': [[0, UPDATE, build.update_body(bytes([24, 10, 0, 2]), block, bytes([24, 10, 0, 1])).hex()], [0, UPDATE, plain]], 'motifs': ['fixed:withdrawn-then-not']},
         {'messages': [[0, UPDATE, plain], [0, UPDATE, build.update_body(bytes([24, 10, 0, 2]), block, bytes([24, 10, 0, 1])).hex()]], 'motifs': ['fixed:not-then-withdrawn']},
+        # a labelled route and a VPN route, each announced again with another label (sessions B and C)
+        {'messages': [_labelled(1, 4, 100), _labelled(1, 4, 200), _labelled(1, 4, 100)], 'motifs': ['fixed:labelled-route-another-label']},
+        {'messages': [_labelled(2, 128, 300), _labelled(2, 128, 301)], 'motifs': ['fixed:vpn-route-another-label']},
     ]
 
 
